@@ -26,6 +26,13 @@ TU = "scriptplan/_cython/time_utils_cy.pyx"
 MP = "scriptplan/parser/macro_processor.py"
 
 MUTANTS = [
+    # ------------------------------------------------------------------ revert of repaired defect F59 (C19)
+    ("c19_stdin_read_as_text", "C19", [(PL, "            stdin_bytes = sys.stdin.buffer.read()\n            try:\n                stdin_content = stdin_bytes.decode(\"utf-8\")\n            except UnicodeDecodeError as e:\n                raise FileNotFoundError(f\"Cannot read stdin: {e}\") from e\n",
+                                         "            stdin_content = sys.stdin.read()\n            stdin_bytes = stdin_content.encode(\"utf-8\", \"surrogateescape\")\n")]),
+    # ------------------------------------------------------------------ revert of repaired defect F58 (C18)
+    ("c18_cost_ignores_allocation_options", "C18", [(TS, "                candidates = list(res.get(\"resources\", [])) + list(res.get(\"options\", {}).get(\"alternative\", []))", "                candidates = [res]")]),
+    # ------------------------------------------------------------------ revert of repaired defect F56 (C16)
+    ("c16_nested_scenario_ignores_parent_override", "C16", [(TP, "                        while pending_scenarios:\n                            nested = pending_scenarios.pop()\n                            nested_idx = all_scenarios.index(nested)\n                            if (id(obj), attr_key, nested_idx) not in explicit:\n                                obj[(attr_key, nested_idx)] = attr_value\n                                pending_scenarios.extend(nested.children)\n", "")]),
     # ------------------------------------------------------------------ revert of repaired defect F54 (C15)
     ("c15_macros_scan_comments", "C15", [(MP, "        content = strip_comments(content)\n\n", "")]),
     # ------------------------------------------------------------------ reverts of repaired defects F52, F53 (C17)
